@@ -1691,6 +1691,13 @@ class CheckedCoverageInstrumentation(transformer.CheckedCoverageInstrumentationA
         instr_index: int,
         instr_original_index: int,
     ) -> None:
+        # Not every traced "jump" has a target block, e.g., BEFORE_WITH has no argument at all.
+        target_id = (
+            cfg.bytecode_cfg.get_block_index(instr.arg)
+            if isinstance(instr.arg, BasicBlock)
+            else None
+        )
+
         # Instrumentation before the original instruction
         position = node.before(instr_index)
         node.basic_block[position] = self.instructions_generator.generate_instructions(
@@ -1705,7 +1712,7 @@ class CheckedCoverageInstrumentation(transformer.CheckedCoverageInstrumentationA
                     InstrumentationConstantLoad(value=instr.opcode),
                     InstrumentationConstantLoad(value=instr.lineno),
                     InstrumentationConstantLoad(value=instr_original_index),
-                    InstrumentationConstantLoad(value=cfg.bytecode_cfg.get_block_index(instr.arg)),  # type: ignore[arg-type]
+                    InstrumentationConstantLoad(value=target_id),
                 ),
             ),
             instr.lineno,
